@@ -3,6 +3,7 @@ run-time codec, CAN frame wrapper) compiled with g++ and driven by harness/cxx/m
 against the canonical `Wire` codec (Lean) and against each other."""
 import json
 import os
+import re
 import random
 import shutil
 import subprocess
@@ -14,6 +15,8 @@ from .impl import run_cases, schema_to_wire
 from . import cbuild
 
 CXX_MAIN = VERIF / "harness" / "cxx" / "main.cpp"
+CXX_PROTO = VERIF / "harness" / "cxx" / "proto.cpp"
+PROTO_BUILDS = {}  # build directory -> {protocol: (exe or None, compiler output)}
 VENDOR = VERIF / "vendor"
 
 
@@ -64,7 +67,7 @@ def w_type_names(case):
 SANITIZE = ["-fsanitize=address,undefined", "-fno-sanitize-recover=all", "-fno-omit-frame-pointer"]
 
 
-def build_cpp(files, reflection, sanitize=False):
+def build_cpp(files, reflection, sanitize=False, protos=False):
     d = tempfile.mkdtemp(prefix="fcpcxx_")
     for name, contents in files.items():
         with open(os.path.join(d, name), "w") as f:
@@ -76,6 +79,22 @@ def build_cpp(files, reflection, sanitize=False):
         ["g++", "-std=c++17", "-O0", "-w"] + (SANITIZE if sanitize else []) + ["-I", str(VENDOR), "-I", d, str(CXX_MAIN), "-o", exe],
         stdout=subprocess.PIPE, stderr=subprocess.STDOUT, text=True, timeout=600,
     )
+    if protos and p.returncode == 0:
+        # every per-protocol header fcp_<protocol>.h is a generated header too: each gets a driver of its own
+        PROTO_BUILDS[d] = {}
+        for name, contents in sorted(files.items()):
+            m = re.fullmatch(r"fcp_(\w+)\.h", name)
+            if not m:
+                continue
+            ns = re.search(r"namespace fcp \{\s*namespace (\w+) \{", contents)
+            pexe = os.path.join(d, "proto_" + m.group(1))
+            q = subprocess.run(
+                ["g++", "-std=c++17", "-O0", "-w"] + (SANITIZE if sanitize else []) +
+                ["-I", str(VENDOR), "-I", d, f'-DPROTO_HEADER="{name}"', "-DPROTO_NS=" + (ns.group(1) if ns else m.group(1)),
+                 str(CXX_PROTO), "-o", pexe],
+                stdout=subprocess.PIPE, stderr=subprocess.STDOUT, text=True, timeout=600,
+            )
+            PROTO_BUILDS[d][m.group(1)] = (pexe if q.returncode == 0 else None, q.stdout)
     return d, (exe if p.returncode == 0 else None), p.stdout
 
 
@@ -285,6 +304,8 @@ def run_core(rep, prop, tier, rng):
         beyond_i32_witness(rep, prop)
     if prop == "C03":
         exhaustive_types(rep)
+        if known("C03", "reserved-word-identifiers"):
+            reserved_word_witness(rep)
     fixed_jobs = {}
     if prop in ("C03", "C13"):
         wd, wjobs = widths_desc(big=prop == "C03")
@@ -299,7 +320,7 @@ def run_core(rep, prop, tier, rng):
         g = gens[k]
         if "ok" not in g:
             return None, None, json.dumps(g)[:1500]
-        return build_cpp(g["ok"]["files"], g["ok"]["reflection"], sanitize=sanitize)
+        return build_cpp(g["ok"]["files"], g["ok"]["reflection"], sanitize=sanitize, protos=prop in ("C03", "C15"))
 
     builds = cbuild.parallel(build_one, range(len(descs)))
     try:
@@ -323,6 +344,29 @@ def run_core(rep, prop, tier, rng):
             if dd:
                 shutil.rmtree(dd, ignore_errors=True)
     return None
+
+
+def reserved_word_witness(rep):
+    """recorded finding reserved-word-identifiers on its witness (silent once the generated header compiles)"""
+    text = 'version: "3"\n\nstruct S {\n    new @ 0: u8,\n}\n'
+    g = run_cases("harness.cpp", "w_gen_cpp", [{"text": text}], timeout_s=300, chunk=1)[0]
+    if "ok" not in g:
+        return
+    d = tempfile.mkdtemp(prefix="fcpcxx_")
+    try:
+        for name, contents in g["ok"]["files"].items():
+            with open(os.path.join(d, name), "w") as f:
+                f.write(contents)
+        with open(os.path.join(d, "t.cpp"), "w") as f:
+            f.write('#include "fcp.h"\nint main() { return 0; }\n')
+        p = subprocess.run(["g++", "-std=c++17", "-fsyntax-only", "-w", "-I", str(VENDOR), "-I", d, os.path.join(d, "t.cpp")],
+                           stdout=subprocess.PIPE, stderr=subprocess.STDOUT, text=True, timeout=600)
+        rep.hist("reserved_word_witness", "compiles" if p.returncode == 0 else "does not compile")
+        if p.returncode != 0:
+            rep.known_finding("a struct, field, enum or enumerator named like a C++ reserved word is accepted by parser and verifier "
+                              "and written verbatim: the generated fcp.h does not compile (witness: struct S { new @0: u8 })")
+    finally:
+        shutil.rmtree(d, ignore_errors=True)
 
 
 def beyond_i32_witness(rep, prop):
@@ -495,6 +539,8 @@ def exercise(rep, prop, rng, d, g, build, nv, tier, twin_of=None, fixed=None):
                 rep.violation(dict(base, kind="static-decode" if cmd == "SD" else "dynamic-decode", observed=got, raw=o[:300],
                                    what=("static" if cmd == "SD" else "reflection-loaded") +
                                    " C++ decoder does not map the canonical bytes back to the value"))
+    if prop in ("C03", "C15"):
+        exercise_protocol_headers(rep, d, build, jobs, res, dec_lines)
     if prop == "C18":
         exercise_can(rep, rng, d, g, build, jobs, model)
     if twin_of is not None and twin_of[1] is not None:
@@ -505,6 +551,50 @@ def exercise(rep, prop, rng, d, g, build, nv, tier, twin_of=None, fixed=None):
             rep.violation({"kind": "twin-cpp", "schema": twin_of[0].text(), "twin": text,
                            "what": "generated C++ bytes change when field declarations are permuted (ids fixed)"})
     return res
+
+
+def exercise_protocol_headers(rep, d, build, jobs, res, dec_lines):
+    """`fcp_<protocol>.h` renders the same template for the bindings of one protocol: it must compile, and its
+    StaticSchema must answer exactly like the one of fcp.h (here: protocol `default`, one binding per struct)"""
+    ddir, exe, _ = build
+    text = d.text()
+    for proto, (pexe, pout) in sorted(PROTO_BUILDS.get(ddir, {}).items()):
+        rep.hist("protocol_header", proto + (": compiled" if pexe else ": no-compile"))
+        if pexe is None:
+            rep.cov["disagreements_checked"] += 1
+            rep.violation({"kind": "compile-protocol-header", "schema": text, "header": f"fcp_{proto}.h", "compiler": first_error(pout),
+                           "what": "a generated per-protocol C++ header does not compile as C++17"})
+            continue
+        if proto != "default":
+            continue
+        enc = [(n, py, se) for (n, py, mv, se) in res]
+        lines = ["PE " + n + " " + json.dumps(json_value(d, ("struct", n), py)) for n, py, se in enc]
+        dl = [l for l in dec_lines if l.startswith("SD ")]
+        lines += ["PD" + l[2:] for l in dl]
+        if not lines:
+            continue
+        p = subprocess.run([pexe], input="\n".join(lines) + "\n", stdout=subprocess.PIPE, stderr=subprocess.PIPE, text=True,
+                           timeout=300, env=dict(os.environ, ASAN_OPTIONS="detect_leaks=0"))
+        out = [l for l in p.stdout.split("\n") if l != ""]
+        if len(out) != len(lines):
+            rep.violation({"kind": "driver-output", "schema": text, "rc": p.returncode, "stderr": p.stderr[-400:],
+                           "what": "the driver of fcp_default.h crashed or answered fewer lines than commands"}, no_input=p.returncode == 0)
+            continue
+        # static answers to compare with
+        rc, sout, _ = talk(exe, os.path.join(ddir, "schema.bin"), dl) if dl else (0, [], "")
+        for (n, py, se), o in zip(enc, out):
+            rep.cov["evaluations"] += 1
+            if o != se:
+                rep.cov["disagreements_checked"] += 1
+                rep.violation({"kind": "protocol-header-encode", "schema": text, "struct": n, "json": json_value(d, ("struct", n), py),
+                               "observed": o, "expected": se,
+                               "what": "fcp_default.h encodes a struct differently from fcp.h (same template, same schema)"})
+        for l, o, so in zip(dl, out[len(enc):], sout):
+            rep.cov["evaluations"] += 1
+            if o != so:
+                rep.cov["disagreements_checked"] += 1
+                rep.violation({"kind": "protocol-header-decode", "schema": text, "command": l, "observed": o, "expected": so,
+                               "what": "fcp_default.h decodes differently from fcp.h (same template, same schema)"})
 
 
 def same_model_value(d, t, a, b):
